@@ -82,6 +82,52 @@ class Carrier:
     pass
 
 
+# The documented persistence hooks of BaseAdapterRegistry: alternative
+# container types (stand-ins for PersistentList / PersistentMapping) with a
+# mutable leaf sequence and the two leaf methods overridden as the docstrings
+# prescribe.
+class PList(list):
+    pass
+
+
+class PMap(dict):
+    pass
+
+
+class CustomContainers:
+    _sequenceType = PList
+    _leafSequenceType = PList
+    _mappingType = PMap
+    _providedType = PMap
+
+    def _addValueToLeaf(self, existing_leaf_sequence, new_item):
+        if not existing_leaf_sequence:
+            existing_leaf_sequence = self._leafSequenceType()
+        existing_leaf_sequence.append(new_item)
+        return existing_leaf_sequence
+
+    def _removeValueFromLeaf(self, existing_leaf_sequence, to_remove):
+        without = [x for x in existing_leaf_sequence if x != to_remove]
+        existing_leaf_sequence[:] = without
+        return existing_leaf_sequence
+
+
+class CustomAdapterRegistry(CustomContainers, AdapterRegistry):
+    pass
+
+
+class CustomVerifyingAdapterRegistry(CustomContainers,
+                                     VerifyingAdapterRegistry):
+    pass
+
+
+def registry_class():
+    if job.get('custom_containers'):
+        return CustomAdapterRegistry if FLAV == 'push' else \
+            CustomVerifyingAdapterRegistry
+    return AdapterRegistry if FLAV == 'push' else VerifyingAdapterRegistry
+
+
 class World:
     serial = 0
 
@@ -111,13 +157,27 @@ class World:
             self.prov[i + 1] = InterfaceClass(
                 'P%d' % (i + 1), tuple(self.prov[m] for m in b),
                 __module__=mod)
-        cls = AdapterRegistry if FLAV == 'push' else VerifyingAdapterRegistry
+        cls = registry_class()
         self.reg = {}
-        for i, b in enumerate(job['rbases']):
-            self.reg[i + 1] = cls()
-        for i, b in enumerate(job['rbases']):
-            if b:
-                self.reg[i + 1].__bases__ = tuple(self.reg[m] for m in b)
+        self.comp = None
+        if job.get('components'):
+            # the registries are the .adapters of Components objects and
+            # re-basing goes through Components.__bases__, which maps the
+            # component bases onto both underlying registries
+            from zope.interface.registry import Components
+            self.comp = {i + 1: Components('c%d' % (i + 1))
+                         for i in range(len(job['rbases']))}
+            for i, b in enumerate(job['rbases']):
+                if b:
+                    self.comp[i + 1].__bases__ = tuple(self.comp[m]
+                                                       for m in b)
+            self.reg = {g: c.adapters for g, c in self.comp.items()}
+        else:
+            for i, b in enumerate(job['rbases']):
+                self.reg[i + 1] = cls()
+            for i, b in enumerate(job['rbases']):
+                if b:
+                    self.reg[i + 1].__bases__ = tuple(self.reg[m] for m in b)
         self.vals = {}
         self.objs = {}
         self.eqclass = job.get('eqclass')
@@ -184,8 +244,18 @@ class World:
         elif op == 'rebuild':
             self.reg[act['g']].rebuild()
         elif op == 'setRegBases':
-            self.reg[act['g']].__bases__ = tuple(self.reg[m]
-                                                 for m in act['nb'])
+            if self.comp is not None:
+                c = self.comp[act['g']]
+                c.__bases__ = tuple(self.comp[m] for m in act['nb'])
+                if c.adapters.__bases__ != tuple(
+                        self.comp[m].adapters for m in act['nb']) or \
+                        c.utilities.__bases__ != tuple(
+                            self.comp[m].utilities for m in act['nb']):
+                    mism(ctx, 'Components.__bases__ mapped onto adapters / '
+                         'utilities', act['nb'], 'different registries')
+            else:
+                self.reg[act['g']].__bases__ = tuple(self.reg[m]
+                                                     for m in act['nb'])
         elif op == 'setSpecBases':
             self.spec[act['s']].__bases__ = tuple(self.spec[m]
                                                   for m in act['nb'])
@@ -422,7 +492,7 @@ class World:
         """C09: allRegistrations/allSubscriptions replayed into an empty
         registry, and rebuild(), answer identically (admissible sets are a
         function of the primary state, which must be unchanged)."""
-        cls = AdapterRegistry if FLAV == 'push' else VerifyingAdapterRegistry
+        cls = registry_class()
         old = dict(self.reg)
         fresh = {}
         for g in sorted(old):
